@@ -50,7 +50,7 @@ class C06(e1.E1Check):
                    reg(2, I), reg(3, F), var(var(I)), var(reg(2, I)), reg(2, var(F)), var(opt(var(I))), opt(S), var(opt(S))]
     types_thorough = types_quick + [var(var(F)), var(var(opt(I))), var(var(var(I))), reg(2, reg(2, F)), opt(var(opt(F))), var(BY)]
     bounds_quick = dict(N=3, M=3, K=7, enc_k=1, state_cap=120, parts=2)
-    bounds_thorough = dict(N=4, M=4, K=10, enc_k=1, state_cap=300, parts=16)
+    bounds_thorough = dict(N=4, M=4, K=9, enc_k=1, state_cap=100, parts=16)
     labeler = staticmethod(sort_labels)
     rule = ("states = arrays whose leaves carry ties, NaN, -inf, signed values, booleans, strings/bytestrings ('' 'a' 'ab' 'b' 'B' "
             "non-ASCII), missing leaves and missing lists, x encodings; transitions = sort and argsort at every axis x ascending x "
